@@ -6,7 +6,7 @@ import numpy as np
 from . import core, pylite_tie
 from .core import Case, cZ, cD, clist, cbool, copt
 
-obligations = pylite_tie.coord_obligations   # source-regenerated tie (see harness/pylite_tie.py)
+obligations = pylite_tie.c07_obligations   # source-regenerated tie (see harness/pylite_tie.py)
 ID = "C07"
 PROPS_FILE = "Props/C07.v"
 IMPORTS = "From Verde Require Import Model.Coordinates Model.CoordCases."
